@@ -1,5 +1,287 @@
-(* placeholder while the model is validated *)
-From Coq Require Import List.
-From PV Require Import Base.StableSort.
-Theorem c04_sort_perm : forall A (lt : A -> A -> bool) l, Permutation.Permutation (ssort lt l) l.
+(* C04 — non-dominated sorting ranks by domination depth; truncation respects rank.
+   Only statements; every proof is [exact lemma].
+
+   Part 1  ranks, for ANY comparator obeying the Dominance contract (C03's hypotheses)
+   Part 2  ranks and attributes of the executable sort (Pareto dominance on xq)
+   Part 3  crowding distance (exact rational arithmetic)
+   Part 4  Python's sorted(): permutation, sorted, stable, unique
+   Part 5  truncate / nondominated_truncate / truncate_fitness
+   Part 6  nondominated_split
+   Part 7  nondominated_prune
+
+   Conventions: [sid_inj l] = identities determine the object (an object may be listed twice);
+   [NoDup (map asid l)] = no object listed twice; sizes are natural numbers. *)
+From Coq Require Import ZArith QArith Bool List Permutation Sorted.
+Import ListNotations.
+From PV Require Import Base.Num Base.Order Base.StableSort Model.Dominance Model.Archive Proofs.ArchiveProofs
+     Model.NDSort Proofs.NDSortProofs Model.Truncate Proofs.TruncateProofs.
+Open Scope nat_scope.
+
+(* ------------------------------------------------------------------ Part 1 *)
+Section C04_ranks.
+  Variable V : Type.
+  Notation T := (sol V).
+  Variable cmp : T -> T -> Z.
+  Variable P : T -> Prop.
+  Variable CR : Type.
+  Variable crowd : list T -> option CR.
+  Hypothesis cmp_range : forall x y, (cmp x y = -1 \/ cmp x y = 0 \/ cmp x y = 1)%Z.
+  Hypothesis cmp_antisym : forall x y, P x -> P y -> (cmp y x = - cmp x y)%Z.
+  Hypothesis dom_trans : forall x y z, P x -> P y -> P z ->
+    dom T cmp x y = true -> dom T cmp y z = true -> dom T cmp x z = true.
+  Hypothesis dom_irrefl : forall x, P x -> dom T cmp x x = false.
+
+  (* [rank V CR log x] = the rank attribute nondominated_sort left on x *)
+
+  (* rank 0 <=> no member dominates x *)
+  Theorem c04_rank_zero_iff : forall l log, Forall P l -> sid_inj l ->
+    nd_loop cmp crowd (length l) l 0 = Some log ->
+    forall x, In x l -> (rank V CR log x = Some 0 <-> forall y, In y l -> dom T cmp y x = false).
+  Proof. exact (rank_zero_iff V cmp P CR crowd cmp_range cmp_antisym dom_trans dom_irrefl). Qed.
+
+  (* rank r+1 <=> every dominator has rank <= r and one has rank exactly r *)
+  Theorem c04_rank_depth : forall l log, Forall P l -> sid_inj l ->
+    nd_loop cmp crowd (length l) l 0 = Some log ->
+    forall x r, In x l ->
+    (rank V CR log x = Some (S r) <->
+     (forall y, In y l -> dom T cmp y x = true -> exists j, rank V CR log y = Some j /\ j <= r) /\
+     (exists y, In y l /\ dom T cmp y x = true /\ rank V CR log y = Some r)).
+  Proof. exact (rank_depth V cmp P CR crowd cmp_range cmp_antisym dom_trans dom_irrefl). Qed.
+
+  (* every member gets a rank, below len(population) *)
+  Theorem c04_rank_total : forall l log, Forall P l -> sid_inj l ->
+    nd_loop cmp crowd (length l) l 0 = Some log ->
+    forall x, In x l -> exists k, rank V CR log x = Some k /\ k < length l.
+  Proof. exact (rank_total V cmp P CR crowd cmp_range cmp_antisym dom_trans dom_irrefl). Qed.
+
+  (* a dominator has a strictly smaller rank *)
+  Theorem c04_rank_dominator_smaller : forall l log, Forall P l -> sid_inj l ->
+    nd_loop cmp crowd (length l) l 0 = Some log ->
+    forall x y rx ry, In x l -> In y l -> dom T cmp y x = true ->
+    rank V CR log x = Some rx -> rank V CR log y = Some ry -> ry < rx.
+  Proof. exact (rank_dominator_smaller V cmp P CR crowd cmp_range cmp_antisym dom_trans dom_irrefl). Qed.
+
+  (* the peeling loop needs at most len(population) rounds, each peels a non-empty front ... *)
+  Theorem c04_rounds_bounded : forall l log, Forall P l -> sid_inj l ->
+    nd_loop cmp crowd (length l) l 0 = Some log ->
+    length log <= length l /\ Forall (fun f => f <> []) (fronts_of V CR log).
+  Proof. exact (rounds_bounded V cmp P CR crowd cmp_range cmp_antisym dom_trans dom_irrefl). Qed.
+
+  (* ... and never runs out of fuel: it fails only if crowding_distance raised on some front *)
+  Theorem c04_peeling_terminates : forall fuel R r, Forall P R -> sid_inj R -> length R <= fuel ->
+    (forall f, incl f R -> crowd f <> None) -> exists log, nd_loop cmp crowd fuel R r = Some log.
+  Proof. exact (nd_loop_fuel V cmp P CR crowd cmp_range cmp_antisym dom_trans dom_irrefl). Qed.
+
+  (* the ranks written are 0, 1, ..., rounds-1 *)
+  Theorem c04_ranks_contiguous : forall l log, Forall P l -> sid_inj l ->
+    nd_loop cmp crowd (length l) l 0 = Some log -> ranks_of V CR log = seq 0 (length log).
+  Proof. exact (ranks_contiguous V cmp P CR crowd cmp_range cmp_antisym dom_trans dom_irrefl). Qed.
+End C04_ranks.
+
+(* ------------------------------------------------------------------ Part 2 *)
+(* [x_nd_sort c dirs l = Some ann]: ann lists l's members, in order, with the (rank, crowding_distance)
+   attributes nondominated_sort(l) left on them *)
+Theorem c04_x_rank_zero_iff : forall c dirs l ann, Forall (sol_wf xq xltb xzero dirs) l -> sid_inj l ->
+  x_nd_sort c dirs l = Some ann -> forall a, In a ann ->
+  (a_rank a = 0 <-> forall b, In b ann -> dom xsol (x_sol_cmp c dirs) (a_sol b) (a_sol a) = false).
+Proof. exact x_rank_zero_iff. Qed.
+
+Theorem c04_x_rank_depth : forall c dirs l ann, Forall (sol_wf xq xltb xzero dirs) l -> sid_inj l ->
+  x_nd_sort c dirs l = Some ann -> forall a r, In a ann ->
+  (a_rank a = S r <->
+   (forall b, In b ann -> dom xsol (x_sol_cmp c dirs) (a_sol b) (a_sol a) = true -> a_rank b <= r) /\
+   (exists b, In b ann /\ dom xsol (x_sol_cmp c dirs) (a_sol b) (a_sol a) = true /\ a_rank b = r)).
+Proof. exact x_rank_depth. Qed.
+
+Theorem c04_x_ranks_contiguous : forall c dirs l ann, Forall (sol_wf xq xltb xzero dirs) l -> sid_inj l ->
+  x_nd_sort c dirs l = Some ann ->
+  exists m, m <= length l /\ (forall a, In a ann -> a_rank a < m) /\
+            (forall j, j < m -> filter (fun a => Nat.eqb (a_rank a) j) ann <> []).
+Proof. exact x_ranks_contiguous. Qed.
+
+(* the crowding attribute of a member is what crowding_distance computed for its own front
+   (= the members of equal rank), so Part 3 applies to it *)
+Theorem c04_x_crowd_front : forall c dirs l ann, Forall (sol_wf xq xltb xzero dirs) l -> sid_inj l ->
+  x_nd_sort c dirs l = Some ann -> forall a, In a ann ->
+  exists front cs,
+    In (a_sol a) front /\ sid_inj front /\
+    (forall b, In b ann -> (In (a_sol b) front <-> a_rank b = a_rank a)) /\
+    (forall x, In x front -> In x l) /\
+    crowding (length dirs) front = Some cs /\ cget cs (sid (a_sol a)) = Some (a_crowd a).
+Proof. exact x_crowd_front. Qed.
+
+Theorem c04_x_crowd_nonneg : forall c dirs l ann, Forall (sol_wf xq xltb xzero dirs) l -> sid_inj l ->
+  x_nd_sort c dirs l = Some ann -> forall a, In a ann -> xltb (a_crowd a) xzero = false.
+Proof. exact x_crowd_nonneg. Qed.
+
+(* ------------------------------------------------------------------ Part 3 *)
+(* [crowding nobjs front = Some st]: st maps identities to the crowding_distance written.
+   [unique front] = first member of every distinct objective vector. *)
+
+(* >= 3 distinct vectors: for every objective the first and the last of the stable order get +inf *)
+Theorem c04_crowding_extremes : forall nobjs front st, sid_inj front -> crowding nobjs front = Some st ->
+  forall i x d, 3 <= length (unique front) -> i < nobjs ->
+  x = hd d (sort_by_obj i (unique front)) \/ x = last (sort_by_obj i (unique front)) d ->
+  cget st (sid x) = Some PInf.
+Proof. exact crowding_extremes. Qed.
+
+(* every member: the sum over the objectives of that objective's contribution ... *)
+Theorem c04_crowding_sum : forall nobjs front st, sid_inj front -> crowding nobjs front = Some st ->
+  forall x, 3 <= length (unique front) -> In x (unique front) ->
+  exists cs, Forall2 (fun i c => contrib i (unique front) (sid x) = Some c) (seq 0 nobjs) cs /\
+             Forall not_ninf cs /\ cget st (sid x) = Some (fold_left xplus cs xzero).
+Proof. exact crowding_sum. Qed.
+
+(* ... where the contribution of objective i to an interior member x (neighbours p, n in the stable order)
+   is (obj_i n - obj_i p) / (max_i - min_i), or +inf when max_i - min_i < EPSILON (as the code does) *)
+Theorem c04_contrib_interior : forall i u l1 p x n l2 mn mx a b,
+  NoDup (map sid u) -> sort_by_obj i u = l1 ++ p :: x :: n :: l2 ->
+  fin (obj_at i (hd x (sort_by_obj i u))) = Some mn ->
+  fin (obj_at i (last (sort_by_obj i u) x)) = Some mx ->
+  fin (obj_at i p) = Some a -> fin (obj_at i n) = Some b ->
+  contrib i u (sid x) = Some (if Qltb (mx - mn) EPSILON then PInf else Fin ((b - a) / (mx - mn))).
+Proof. exact contrib_interior. Qed.
+
+(* interior for every objective with finite contributions q i: exactly their sum *)
+Theorem c04_crowding_interior : forall nobjs front st, sid_inj front -> crowding nobjs front = Some st ->
+  forall x (q : nat -> Q), 3 <= length (unique front) -> In x (unique front) ->
+  (forall i, i < nobjs -> contrib i (unique front) (sid x) = Some (Fin (q i))) ->
+  cget st (sid x) = Some (Fin (fold_left Qplus (map q (seq 0 nobjs)) 0%Q)).
+Proof. exact crowding_interior. Qed.
+
+(* fewer than 3 distinct vectors: all of them +inf *)
+Theorem c04_crowding_small : forall nobjs front st, crowding nobjs front = Some st ->
+  forall x, length (unique front) < 3 -> In x (unique front) -> cget st (sid x) = Some PInf.
+Proof. exact crowding_small. Qed.
+
+(* a member whose objective vector repeats an earlier member's keeps 0.0 *)
+Theorem c04_crowding_dups_zero : forall nobjs front st, sid_inj front -> crowding nobjs front = Some st ->
+  forall x, In x front -> has_sid (sid x) (unique front) = false -> cget st (sid x) = Some xzero.
+Proof. exact crowding_dups_zero. Qed.
+
+Theorem c04_crowding_nonneg : forall nobjs front st, sid_inj front -> crowding nobjs front = Some st ->
+  forall x v, In x front -> cget st (sid x) = Some v -> xltb v xzero = false.
+Proof. exact crowding_nonneg. Qed.
+
+(* ------------------------------------------------------------------ Part 4 *)
+Theorem c04_sort_perm : forall A (lt : A -> A -> bool) l, Permutation (ssort lt l) l.
 Proof. exact ssort_perm. Qed.
+
+Theorem c04_sort_sorted : forall A (lt : A -> A -> bool), StrictWeak lt ->
+  forall l, StronglySorted (le_rel lt) (ssort lt l).
+Proof. exact ssort_sorted. Qed.
+
+Theorem c04_sort_stable : forall A (lt : A -> A -> bool), StrictWeak lt ->
+  forall l z, filter (keq lt z) (ssort lt l) = filter (keq lt z) l.
+Proof. exact ssort_stable. Qed.
+
+(* any sorted stable permutation IS the model's sort: the sorting algorithm is immaterial *)
+Theorem c04_stable_sort_unique : forall A (lt : A -> A -> bool), StrictWeak lt ->
+  forall l l', Permutation l l' -> StronglySorted (le_rel lt) l' ->
+  (forall z, filter (keq lt z) l' = filter (keq lt z) l) -> l' = ssort lt l.
+Proof. exact ssort_unique. Qed.
+
+(* the rank-then-crowding order of nondominated_sort_cmp is a strict weak order *)
+Theorem c04_nd_lt_strict_weak : StrictWeak nd_lt.
+Proof. exact nd_lt_sw. Qed.
+
+(* ------------------------------------------------------------------ Part 5 *)
+Theorem c04_truncate_length : forall A (lt : A -> A -> bool) reverse l k,
+  length (truncate lt reverse l k) = min k (length l).
+Proof. exact truncate_length. Qed.
+
+Theorem c04_truncate_sub_generic : forall A (lt : A -> A -> bool) (f : A -> nat) reverse l k,
+  NoDup (map f l) -> NoDup (map f (truncate lt reverse l k)).
+Proof. exact truncate_NoDup. Qed.
+
+Theorem c04_truncate_all : forall A (lt : A -> A -> bool) reverse l k, length l <= k ->
+  truncate lt reverse l k = sorted_by lt reverse l /\ Permutation (truncate lt reverse l k) l.
+Proof. exact truncate_all. Qed.
+
+(* nondominated_truncate *)
+Theorem c04_nd_truncate_length : forall l k, length (nondominated_truncate l k) = min k (length l).
+Proof. exact nd_truncate_length. Qed.
+
+Theorem c04_truncate_sub : forall l k, NoDup (map asid l) ->
+  NoDup (map asid (nondominated_truncate l k)) /\
+  exists dropped, Permutation (nondominated_truncate l k ++ dropped) l.
+Proof. exact nd_truncate_sub. Qed.
+
+(* kept x, dropped y => rank x <= rank y, and at equal rank crowding x >= crowding y *)
+Theorem c04_truncate_rank_mono : forall l k x y, NoDup (map asid l) ->
+  In x (nondominated_truncate l k) -> In y l -> ~ In (asid y) (map asid (nondominated_truncate l k)) ->
+  a_rank x <= a_rank y /\ (a_rank x = a_rank y -> xltb (a_crowd x) (a_crowd y) = false).
+Proof. exact nd_truncate_rank_mono. Qed.
+
+Theorem c04_truncate_zero : forall l, nondominated_truncate l 0 = [].
+Proof. exact nd_truncate_zero. Qed.
+
+Theorem c04_truncate_all_fit : forall l k, length l <= k -> Permutation (nondominated_truncate l k) l.
+Proof. exact nd_truncate_all. Qed.
+
+(* truncate_fitness *)
+Theorem c04_truncate_fitness_length : forall A (fitness : A -> xq) l k larger,
+  length (truncate_fitness fitness l k larger) = min k (length l).
+Proof. exact truncate_fitness_length. Qed.
+
+Theorem c04_truncate_fitness_sub : forall A (fitness : A -> xq) (ident : A -> nat) l k larger,
+  NoDup (map ident l) ->
+  NoDup (map ident (truncate_fitness fitness l k larger)) /\
+  exists dropped, Permutation (truncate_fitness fitness l k larger ++ dropped) l.
+Proof. exact truncate_fitness_sub. Qed.
+
+Theorem c04_truncate_fitness_mono : forall A (fitness : A -> xq) (ident : A -> nat) l k larger x y,
+  NoDup (map ident l) -> In x (truncate_fitness fitness l k larger) -> In y l ->
+  ~ In (ident y) (map ident (truncate_fitness fitness l k larger)) ->
+  if larger then xltb (fitness x) (fitness y) = false else xltb (fitness y) (fitness x) = false.
+Proof. exact truncate_fitness_mono. Qed.
+
+(* ------------------------------------------------------------------ Part 6 *)
+(* [fronts_upto rank l r] = fronts 0..r-1 one after the other = the members of rank < r;
+   [split_post rank l size r last]: fronts 0..r-1 are non-empty and fit (total <= size), and either
+   last = [] with (total = size  or  front r empty), or last = front r which does not fit. *)
+Theorem c04_split_spec : forall l size, exists r last,
+  nondominated_split l size = Some (fronts_upto a_rank l r, last) /\ split_post a_rank l size r last.
+Proof. exact nd_split_spec. Qed.
+
+Theorem c04_split_zero : forall A (rank : A -> nat) l, split_by rank l 0 = Some ([], []).
+Proof. exact split_zero. Qed.
+
+(* ranks 0..m-1 all occupied and everything fits: (all fronts in rank order, []) *)
+Theorem c04_split_all : forall A (rank : A -> nat) l size m,
+  (forall a, In a l -> rank a < m) -> (forall j, j < m -> matches rank l j <> []) -> length l <= size ->
+  split_by rank l size = Some (fronts_upto rank l m, []) /\ Permutation (fronts_upto rank l m) l.
+Proof. exact split_all. Qed.
+
+Theorem c04_sorted_split_all : forall c dirs l ann, Forall (sol_wf xq xltb xzero dirs) l -> sid_inj l ->
+  x_nd_sort c dirs l = Some ann -> forall size, length l <= size ->
+  exists first, nondominated_split ann size = Some (first, []) /\ Permutation first ann.
+Proof. exact sorted_split_all. Qed.
+
+(* ------------------------------------------------------------------ Part 7 *)
+Theorem c04_prune_length_le : forall nobjs l size out,
+  nondominated_prune nobjs l size = Some out -> length out <= size.
+Proof. exact prune_length_le. Qed.
+
+(* exactly min(size, n) members of a freshly sorted population *)
+Theorem c04_prune_length : forall c dirs l ann, Forall (sol_wf xq xltb xzero dirs) l -> sid_inj l ->
+  x_nd_sort c dirs l = Some ann -> forall nobjs size out,
+  nondominated_prune nobjs ann size = Some out -> length out = min size (length l).
+Proof. exact sorted_prune_length. Qed.
+
+(* members of the result are members of the input (solution and rank; crowding is rewritten) *)
+Theorem c04_prune_sub : forall nobjs l size out, nondominated_prune nobjs l size = Some out ->
+  exists rest, Permutation (map core out ++ rest) (map core l).
+Proof. exact prune_sub. Qed.
+
+Theorem c04_prune_distinct : forall nobjs l size out, nondominated_prune nobjs l size = Some out ->
+  NoDup (map asid l) -> NoDup (map asid out).
+Proof. exact prune_NoDup. Qed.
+
+(* kept x, dropped y => rank x <= rank y *)
+Theorem c04_prune_rank_mono : forall nobjs l size out, nondominated_prune nobjs l size = Some out ->
+  forall x y, In x out -> In y l -> ~ In y out -> a_rank x <= a_rank y.
+Proof. exact prune_rank_mono. Qed.
+
+Theorem c04_prune_zero : forall nobjs l, nondominated_prune nobjs l 0 = Some [].
+Proof. exact prune_zero. Qed.
